@@ -67,6 +67,7 @@ def check(ctx, recs):
 def games_for(ctx):
     kmax = 4 if ctx.quick else 6
     games = [(gen_games.FIG55, gen_games.FIG55_META)] + sc.corpus_games() + gen_games.pattern_games(kmax)
+    games += gen_games.pattern_games3(3 if ctx.quick else 4)
     games += gen_games.mixed_games(ctx.rng, 150 if ctx.quick else 3000, 3, 9, styles=("stopping", "exact"))
     for g, m in gen_games.mixed_games(ctx.rng, 60 if ctx.quick else 1000, 3, 8, styles=("cyclic", "tiny", "players")):
         m = dict(m, full=True)
